@@ -2,6 +2,7 @@ package c16
 
 import (
 	"fmt"
+	"regexp"
 	"sort"
 	"strings"
 	"time"
@@ -62,6 +63,9 @@ func errClass(msg string) string {
 	return "other"
 }
 
+// validationErr recognises the texts of git-bug's Validate methods inside import errors.
+var validationErr = regexp.MustCompile(`title is empty|previous title has unsafe characters|title has unsafe characters|message is not fully printable|label has unsafe characters|label: empty|name has unsafe characters|login has unsafe characters|email has unsafe characters|either name or login should be set|avatarUrl is not a valid URL`)
+
 type caseExec struct {
 	e   *env
 	c   Case
@@ -109,6 +113,19 @@ func (x *caseExec) doImport(r *run, fault *ReqID, mode string, label string, sel
 	for _, inv := range st.Invalid {
 		x.viol("valid-ops", "invalid-stored"+kind, fmt.Sprintf("%s: after %s the repository holds %s", x.c, label, inv), sel)
 	}
+	// "whatever text the tracker holds, the imported operations are valid": an operation (or identity)
+	// the importer built from tracker text and that git-bug's own Validate refused is an invalid
+	// imported operation that merely was caught one layer below.
+	for _, msg := range obs.Errors {
+		if m := validationErr.FindString(msg); m != "" {
+			site := "issue-event"
+			if strings.HasPrefix(msg, "issue creation:") {
+				site = "issue-creation"
+			}
+			x.viol("valid-ops", "importer-built-invalid-operation:"+site+":"+strings.ReplaceAll(m, " ", "-"),
+				fmt.Sprintf("%s: %s: the importer built an operation that does not validate: %s", x.c, label, msg), sel)
+		}
+	}
 	if obs.failed() && obs.CursorAfter != obs.CursorBefore {
 		x.viol("cursor", "advanced-despite-error"+kind, fmt.Sprintf("%s: %s reported %v yet lastImportTime went %s -> %s", x.c, label, obs.Errors, obs.CursorBefore, obs.CursorAfter), sel)
 	}
@@ -155,7 +172,7 @@ func (x *caseExec) reference(r *run, st State, label string) {
 		if len(b.Comments) != n {
 			x.viol("reference", "comment-count", fmt.Sprintf("%s: after %s: issue %d has description + %d notes, bug has %d comments", x.c, label, is.IID, n-1, len(b.Comments)), -2)
 		}
-		if norm(b.Title) != norm(is.Title) {
+		if norm(is.Title) != "" && norm(b.Title) != norm(is.Title) { // (nothing printable to carry over: any title will do)
 			x.viol("reference", "title", fmt.Sprintf("%s: after %s: issue %d has title %q, bug has %q", x.c, label, is.IID, is.Title, b.Title), -2)
 		}
 	}
